@@ -145,6 +145,9 @@ impl InterfaceIO for RustIOHandler {
         let mut file = File::create(filename).await?;
 
         file.write_all(value).await?;
+        // write_all on a tokio File only hands the buffer to a blocking task: without a
+        // flush the function returned while the file was still empty or partial
+        file.flush().await?;
 
         // TODO : write the file to a temp file and move to avoid file corruptions
 
